@@ -2,3 +2,7 @@
 import RainModel.Model.Blocks
 import RainModel.Model.Bencode
 import RainModel.Model.Codec
+import RainModel.Lemmas.Bencode
+import RainModel.Lemmas.Codec
+import RainModel.Props.C11
+import RainModel.Props.C08Reader
